@@ -289,7 +289,8 @@ class DULServiceProvider(threading.Thread):
             pdu_type, event = PDU_TYPES[six.indexbytes(raw_pdu, 0)]
             self.primitive = pdu_type.decode(raw_pdu)
             self.event.append(event)
-        except KeyError:
+        except Exception:  # pylint: disable=broad-except
+            # unrecognized PDU type or PDU that can not be decoded
             self.event.append(fsm.Events.EVT_19)
         return True
 
